@@ -29,7 +29,12 @@ RULE = ("seeded generator over the independent sealer gen_vmx: every cipher x MA
         "passphrases, single-byte alterations (one per region: IV / ciphertext / MAC / salt) of wrapped key, data and salt; two files with "
         "the same phrase id + passphrase but different parameters unlocked alternately in one process. Compared per attempt: ok/E and "
         "the sorted visible configuration after the attempt — real code vs Lean model vs construction truth. Alterations that reach "
-        "only PKCS#7 padding are generated as separate single-attempt cases (kind-padonly).")
+        "only PKCS#7 padding are generated as separate single-attempt cases (kind-padonly). Directed family kind-padvalid (wrong keys that "
+        "look right): key safes with 2..4 pairs for different passphrases in which a pair pads validly (PKCS#7) under the key its "
+        "locator derives from ANOTHER pair's passphrase — the earlier pair under the later passphrase, the later under the earlier, every "
+        "earlier pair under the last, a middle pair — or under a foreign passphrase, and configuration blobs that pad validly under "
+        "the data key of a pair with another key; the colliding salt / IV is found by a deterministic search (gen_vmx."
+        "force_pad_collision), the victim pair runs through all 18 cipher x MAC x KDF combinations; every pair's passphrase is tried.")
 ASSUMPTIONS = ["primitives are modelled, not verified: PBKDF2, HMAC, AES-CBC (pycryptodome), base64.b64decode, int(), bytes.decode() and the .vmx "
                "dictionary syntax are parameters of the Lean model, supplied as a per-attempt table computed with the real libraries",
                "text is modelled as UTF-8 bytes; percent-decoded sequences that are not valid UTF-8 are outside the generator",
@@ -138,6 +143,87 @@ def _seq_variant(r, rng):
     return r2, what
 
 
+PADVALID_SHAPES = ["earlier-under-later", "later-under-earlier", "earlier-under-later-iv", "all-earlier-under-last", "middle",
+                   "foreign-phrase", "data-under-other-key", "both-ways"]
+
+
+def _padvalid_recipe(rng, combo, shape, tag):
+    """a key safe in which a pair (combination `combo`) pads validly under a wrong key; -> (recipe, extra wrong passphrases)"""
+    def small(p):                                   # the salt search derives two keys per candidate: keep that cheap
+        if p["rounds"] > 60:
+            p["rounds"] = rng.randint(1, 60)
+
+    def setcombo(p):
+        p["cipher"], p["mac"], p["kdf"] = combo
+
+    n = {"all-earlier-under-last": rng.choice([3, 4]), "middle": rng.choice([3, 4]), "foreign-phrase": rng.choice([1, 2, 3])}.get(shape, rng.choice([2, 2, 3]))
+    r = gen_vmx.gen_recipe(rng, "quick", npairs=n, pos=rng.randrange(n))
+    pairs, main, extra = r["pairs"], r["pairs"][r["pos"]], []
+    if rng.random() < 0.5:                          # the pairs carry the same key under the same MAC: every passphrase opens the file
+        for p in pairs:
+            p["key"], p["key_cipher"], p["mac"] = main["key"], main["key_cipher"], main["mac"]
+    vary = "iv" if shape.endswith("-iv") or rng.random() < 0.25 else "salt"
+    forcings = []
+    if shape in ("earlier-under-later", "earlier-under-later-iv"):
+        u = rng.randrange(1, n)
+        forcings = [(rng.randrange(0, u), u)]
+        if rng.random() < 0.7:                      # the pair that has to be reached is the one the configuration is sealed for
+            r["pos"] = u
+    elif shape == "later-under-earlier":
+        u = rng.randrange(0, n - 1)
+        forcings = [(rng.randrange(u + 1, n), u)]
+    elif shape == "all-earlier-under-last":
+        forcings = [(v, n - 1) for v in range(n - 1)]
+        r["pos"] = n - 1 if rng.random() < 0.7 else r["pos"]
+    elif shape == "middle":
+        v = rng.randrange(1, n - 1)
+        forcings = [(v, rng.choice([j for j in range(n) if j != v]))]
+    elif shape == "both-ways":
+        forcings = [(0, n - 1), (n - 1, 0)]
+    elif shape == "foreign-phrase":
+        w = gen_vmx._gen_phrase(rng, {p["passphrase"] for p in pairs})
+        forcings = [(rng.randrange(n), {"phrase": w})]
+        extra = [w]
+    main = pairs[r["pos"]]
+    if shape == "data-under-other-key":
+        # a pair with ANOTHER data key (same MAC, so that the reader cuts the blob where the sealer did): its passphrase opens the
+        # pair, the configuration then pads validly under the key found there
+        v = rng.choice([j for j in range(n) if j != r["pos"]])
+        kc = rng.choice(list(gen_vmx.CIPHERS))
+        setcombo(main)
+        pairs[v]["key_cipher"], pairs[v]["key"], pairs[v]["mac"] = kc, rng.randbytes(gen_vmx.CIPHERS[kc]).hex(), main["mac"]
+        for p in pairs:
+            if p["key"] == main["key"]:
+                p["mac"] = main["mac"]
+        gen_vmx.force_pad_collision(r, "data", v, "iv", tag=tag)
+        return r, extra
+    for v, u in forcings:
+        keep = pairs[v]["mac"]
+        setcombo(pairs[v])
+        if pairs[v]["key"] == main["key"] and keep == main["mac"]:       # keep "every passphrase opens the file" when it was set up
+            for p in pairs:
+                if p["key"] == main["key"]:
+                    p["mac"] = pairs[v]["mac"]
+        if vary == "salt":
+            small(pairs[v])
+        gen_vmx.force_pad_collision(r, v, u, vary, tag=tag)
+    return r, extra
+
+
+def _padvalid_cases(seed, tier, tag, n):
+    rng = random.Random(f"C15/padvalid/{tag}/{seed}/{tier}")
+    cases = []
+    for i in range(n):
+        combo = gen_vmx.COMBOS[i % len(gen_vmx.COMBOS)]
+        shape = PADVALID_SHAPES[(i // len(gen_vmx.COMBOS) + i) % len(PADVALID_SHAPES)]
+        r, extra = _padvalid_recipe(rng, combo, shape, f"{tag}/{seed}/{tier}/{i}")
+        b = gen_vmx.build(r)
+        qs, _ = _file_queries(0, b, rng, tampers=False)
+        qs = qs[:1] + [[0, "wrong", w] for w in extra] + qs[1:]
+        cases.append({"id": f"{tag}v{i}", "recipe": {"kind": "padvalid", "shape": shape, "files": [r]}, "queries": qs})
+    return cases
+
+
 def _cases(seed, tier, tag, n_gen, n_same, n_seq):
     rng = random.Random(f"C15/{tag}/{seed}/{tier}")
     cases, padcases = [], []
@@ -174,15 +260,15 @@ def _cases(seed, tier, tag, n_gen, n_same, n_seq):
 
 def generate(seed, tier):
     if tier == "quick":
-        cases = _cases(seed, tier, "", 180, 36, 24)
+        cases = _cases(seed, tier, "", 180, 36, 24) + _padvalid_cases(seed, tier, "", 72)
     else:
-        cases = _cases(seed, tier, "", 1800, 300, 200)
+        cases = _cases(seed, tier, "", 1800, 300, 200) + _padvalid_cases(seed, tier, "", 720)
     prefetch(cases)
     return cases
 
 
 def search(seed, broken, budget):
-    cases = _cases(seed, "thorough", "x", min(budget // 4, 400), 60, 40)
+    cases = _cases(seed, "thorough", "x", min(budget // 4, 400), 60, 40) + _padvalid_cases(seed, "thorough", "x", 144)
     prefetch(cases)
     return cases
 
@@ -245,7 +331,20 @@ def build(case):
         br.add("cfg=%s" % ("0" if not pt else "<256" if len(pt) < 256 else "<1024" if len(pt) < 1024 else ">=1024"))
         if fr["pos"] > 0:
             br.add("main-pair-not-first")
+        for v, u in b["padvalid"]:
+            if v == "data":
+                br.add("padvalid:data-under-other-key")
+            elif isinstance(u, dict):
+                br.add("padvalid:pair-under-foreign-phrase")
+            else:
+                br.add("padvalid:%s-under-%s" % (("earlier", "later") if v < u else ("later", "earlier")))
+                vp = fr["pairs"][v]
+                br.add("padvalid:victim=%s/%s/%s" % (vp["cipher"], vp["mac"], vp["kdf"]))
+                if v < u == fr["pos"]:
+                    br.add("padvalid:before-the-pair-that-opens")
     br.add("kind-" + r["kind"])
+    if r.get("shape"):
+        br.add("shape-" + r["shape"])
     info = {"branches": sorted(br), "in_scope": True, "compare_model_out_of_scope": True, "tamper_padding_only": padonly,
             "nontrivial": any(t.startswith("ok") for t in truth) and any(t.startswith("E") for t in truth)
             and any(b["hidden"] for b in files)}
